@@ -12,7 +12,7 @@ def exhaustive(ctx, cfgs):
                 raise vlib.Inconclusive("vacuous model: actions never taken in %s: %s" % (cfg, z))
 
 
-def replay_cases(ctx, gen_cfg, binary, focus):
+def replay_cases(ctx, gen_cfg, binary, focus, env=None):
     """B1: TLC enumerates all terminal histories; each is replayed against the real executor.
     focus: the descriptor components this property talks about (others are ignored)."""
     r = ctx.tlc("MCBatch", gen_cfg, workers=4, count=False)
@@ -22,7 +22,9 @@ def replay_cases(ctx, gen_cfg, binary, focus):
     cpath = os.path.join(ctx.work, "cases.ndjson")
     vlib.write_ndjson(cpath, cases)
     opath = os.path.join(ctx.work, "results.ndjson")
-    rc, out = ctx.run_driver(binary, test_run="^TestReplay$", env={"VERIF_CASES": cpath, "VERIF_OUT": opath})
+    e = {"VERIF_CASES": cpath, "VERIF_OUT": opath}
+    e.update(env or {})
+    rc, out = ctx.run_driver(binary, test_run="^TestReplay$", env=e)
     if rc != 0 or not os.path.exists(opath):
         raise vlib.Inconclusive("batch driver failed rc=%s\n%s" % (rc, out[-3000:]))
     res = vlib.read_ndjson(opath)
